@@ -382,6 +382,24 @@ func cmdVerify(args []string) int {
 	for _, l := range lines {
 		fmt.Println(l)
 	}
+	// slowest obligations (stability watch: claimed obligations should discharge well under the timeout)
+	var slow []string
+	for _, oc := range outcomes {
+		total := int64(0)
+		for _, tr := range oc.Res.Tried {
+			var ms int64
+			if i := strings.LastIndex(tr, ":"); i >= 0 {
+				fmt.Sscanf(tr[i+1:], "%dms", &ms)
+			}
+			total += ms
+		}
+		if total > int64(timeout)*250 && !oc.Obl.Cover {
+			slow = append(slow, fmt.Sprintf("%s %s", oc.Obl.Name, strings.Join(oc.Res.Tried, " ")))
+		}
+	}
+	for _, s := range slow {
+		fmt.Fprintf(os.Stderr, "SLOW %s\n", s)
+	}
 	wall := time.Since(start).Seconds()
 	fmt.Fprintf(os.Stderr, "wkv %s %s: %d/%d obligations discharged, %d/%d covers ok, %d functions, %.1fs wall, %.1fs solver\n",
 		*prop, *tier, discharged, obligations, coversOK, covers, len(funcs), wall, float64(solverMs)/1000)
@@ -430,6 +448,7 @@ func cmdVerify(args []string) int {
 			"vacuity_covers":           map[string]int{"checked": covers, "satisfiable": coversOK},
 			"discharged_by_solver":     bySolver,
 			"solver_ms":                solverMs,
+			"slow_obligations":         slow,
 			"per_obligation_timeout_s": timeout,
 			"integer_semantics":        "machine integers modelled exactly (range-constrained Int with wrap-around, or bit-vectors in mode bv)",
 			"bounded":                  bounded,
